@@ -579,7 +579,7 @@ def run_check(prop, tier, seed):
     # floors
     low = []
     for clause, floor in FLOORS.get(prop, {}).items():
-        fl = floor if tier == "quick" else floor * 5
+        fl = floor if tier == "quick" else floor * 3
         got = agg.obl.get(clause, 0)
         if got < fl:
             low.append(f"{clause}: {got} < {fl}")
